@@ -647,7 +647,24 @@ class HyperParameters:
                 for boolean_proto in proto.space.boolean_space
             )
 
-        hps.merge(space)
+        # The proto groups the hyperparameters by type. Restore an order in
+        # which the parents precede their conditional children.
+        names = {hp.name for hp in space}
+        ordered_space = []
+        while space:
+            placed = {hp.name for hp in ordered_space}
+            ready = [
+                hp
+                for hp in space
+                if all(
+                    c.name in placed or c.name not in names
+                    for c in hp.conditions
+                )
+            ]
+            ready = ready or space
+            ordered_space.extend(ready)
+            space = [hp for hp in space if hp not in ready]
+        hps.merge(ordered_space)
 
         if isinstance(proto, protos.get_proto().HyperParameters.Values):
             values = proto.values
